@@ -32,6 +32,8 @@ pub enum MathEvent {
 pub struct MathLog {
     pub events: Vec<MathEvent>,
     pub record: bool,
+    /// record only the outputs of array_gaussian
+    pub record_gaussian: bool,
     pub n_gaussian: u64,
     pub n_normalize: u64,
     pub n_esh: u64,
@@ -288,7 +290,7 @@ where
         } else {
             self.inner.array_gaussian(r, d, s)
         }
-        if self.log.record {
+        if self.log.record || self.log.record_gaussian {
             let out = self.vec(d);
             self.log.events.push(MathEvent::Gaussian(out));
         }
